@@ -154,12 +154,6 @@ func c34Drain(x *cluster) []c34Emit {
 				out = append(out, c34Emit{Type: fmt.Sprintf("other-%v", e.Type)})
 			}
 		default:
-			sort.Slice(out, func(i, j int) bool {
-				if out[i].Node != out[j].Node {
-					return out[i].Node < out[j].Node
-				}
-				return out[i].Type > out[j].Type // "left" before "joined" for one node, as emitted
-			})
 			return out
 		}
 	}
